@@ -311,6 +311,8 @@ class Engine(CoreMixin, ExprMixin, CallMixin, StmtMixin, BuiltinMixin):
             parts.append(smt.spec_module("mod_outcome"))
             body = [b for b in body if not b.startswith("(declare-fun attr_target ") and not b.startswith("(declare-fun attr_result ") and not b.startswith("(declare-fun attr_error ")]
             btext = "\n".join(body)
+        if "DICT-ITEM" in (getattr(contract, "lemmas", []) or []):
+            parts.append(smt.spec_module("mod_dict"))
         if "is_json" in btext:
             parts.append(smt.spec_module("mod_json_elem"))
         parts.append(btext)
